@@ -1,4 +1,449 @@
-import ShootVerif.Spec.Cli
+import ShootVerif.Proofs.Cli
+/-!
+C16 — type selection and output file naming follow the command line.
+
+`run o cmd pkg fl` is the model of the driver (Model/Cli.lean): `o` is the iteration order of the map
+`TypesInfo.Defs` (an arbitrary function), `pkg` ANY list of files of declarations, `fl` ANY flag values.
+`spec` is the property (Spec/Cli.lean). All theorems quantify over every oracle, package and flag record;
+`region … = .WF` is the decidable well-formedness predicate whose clauses are listed in `region`/`validPkg`
+(valid Go package inside the documented feature set; selection form the property talks about; not one of
+the five finding regions, each of which has a witness theorem below).
+-/
 namespace ShootVerif.Cli
-theorem C16_placeholder : True := trivial
+
+/-- headline: on the well-formed region the model's outcome meets the specification — exactly the specified
+    files are written, each holding exactly the specified types, exactly they are listed; or, with a bad
+    name in the list, a diagnostic is printed and no written file holds a bad name -/
+theorem C16_model_meets_spec (o : Oracle) (cmd : Cmd) (pkg : Pkg) (fl : Flags) (h : region cmd pkg fl = .WF) :
+    ∃ s, spec cmd pkg fl = some s ∧ meets (run o cmd pkg fl) s = true := by
+  unfold region at h
+  by_cases hv : validPkg pkg = true
+  · have v := validFacts hv
+    simp only [hv, Bool.not_true, Bool.false_eq_true, ↓reduceIte] at h
+    cases hm : mode fl with
+    | none => simp [hm] at h
+    | some md =>
+      cases md with
+      | file f sep =>
+        simp only [hm] at h
+        cases hin : (pkg.map File.name).contains f with
+        | true => exact file_mode_meets o cmd pkg fl v hm hin
+        | false => rw [hin] at h; simp at h
+      | star sep =>
+        simp only [hm] at h
+        apply star_mode_meets o cmd pkg fl v hm
+        by_cases he : (eligibleIn cmd pkg none).isEmpty = true
+        · exact Or.inl he
+        · right
+          simp only [he, Bool.false_eq_true, ↓reduceIte] at h
+          cases hg : (pkg.find? (fun f => f.comments.any (isDirective fl.cmdline))).map (·.name) with
+          | none => simp only [hg] at h; cases sep <;> simp at h
+          | some g0 =>
+            refine ⟨g0, rfl, ?_⟩
+            intro hs n hn
+            simp only [hg, hs, Bool.true_and] at h
+            by_cases hall : (eligibleIn cmd pkg none).all (fun n => fileOf pkg n == some g0) = true
+            · simp only [List.all_eq_true, beq_iff_eq] at hall
+              exact hall n hn
+            · simp [hall] at h
+      | named ns file =>
+        simp only [hm] at h
+        by_cases hnd : ns.Nodup
+        · simp only [hnd, decide_true, Bool.not_true, Bool.false_eq_true, ↓reduceIte] at h
+          have hfm : fileMissing pkg file = false := by
+            cases hx : fileMissing pkg file with
+            | false => rfl
+            | true => rw [hx] at h; simp at h
+          have hfile : ∀ g, file = some g → (pkg.map File.name).contains g = true := by
+            intro g hg
+            subst hg
+            simpa [fileMissing] using hfm
+          simp only [hfm, Bool.false_eq_true, ↓reduceIte] at h
+          by_cases hc : ns.all (candsOK pkg) = true
+          · simp only [hc, Bool.not_true, Bool.false_eq_true, ↓reduceIte] at h
+            simp only [List.all_eq_true] at hc
+            by_cases hb : (ns.filter (fun n => !good cmd pkg file n)).isEmpty = true
+            · apply named_good_meets o cmd pkg fl v hm hnd hfile hc
+              intro n hn
+              simp only [List.isEmpty_iff, List.filter_eq_nil_iff, Bool.not_eq_true', Bool.not_eq_false] at hb
+              exact hb n hn
+            · simp only [hb, Bool.false_eq_true, ↓reduceIte] at h
+              have hbad : ∃ n ∈ ns, good cmd pkg file n = false := by
+                cases hl : ns.filter (fun n => !good cmd pkg file n) with
+                | nil => simp [hl] at hb
+                | cons a r =>
+                  have : a ∈ ns.filter (fun n => !good cmd pkg file n) := by simp [hl]
+                  simp only [List.mem_filter, Bool.not_eq_true'] at this
+                  exact ⟨a, this.1, this.2⟩
+              -- allInFile = false gives a name that is not declared in the named file
+              have hmis : allInFile pkg ns file = false → ∃ g, file = some g ∧ ∃ n ∈ ns, fileOf pkg n ≠ some g := by
+                intro hif
+                cases file with
+                | none => simp [allInFile] at hif
+                | some g =>
+                  simp only [allInFile, List.all_eq_false, beq_iff_eq] at hif
+                  obtain ⟨n, hn, hne⟩ := hif
+                  exact ⟨g, rfl, n, hn, hne⟩
+              apply named_bad_meets o cmd pkg fl v hm hfile hc hbad
+              · intro hcmd
+                subst hcmd
+                apply hmis
+                cases hif : allInFile pkg ns file with
+                | false => rfl
+                | true => simp [hif] at h
+              · intro hcmd
+                subst hcmd
+                cases hif : allInFile pkg ns file with
+                | false => exact Or.inl (hmis hif)
+                | true =>
+                  right
+                  simp only [hif, Bool.and_true, Bool.true_and, beq_self_eq_true] at h
+                  by_cases hef : ns.any (enumFatal pkg) = true
+                  · simp only [List.any_eq_true] at hef
+                    exact Or.inl hef
+                  · right
+                    simp only [hef, Bool.not_false, Bool.true_and] at h
+                    intro n hn
+                    cases hg : good Cmd.enum pkg file n with
+                    | false => rfl
+                    | true =>
+                      have : ns.any (good Cmd.enum pkg file) = true := List.any_eq_true.mpr ⟨n, hn, hg⟩
+                      simp [this] at h
+          · simp [hc] at h
+        · simp [hnd] at h
+  · simp [hv] at h
+
+/-- the success message lists exactly the written files (all inputs, no side condition) -/
+theorem C16_listed (o : Oracle) (cmd : Cmd) (pkg : Pkg) (fl : Flags) (w : List (OutName × List String))
+    (l : List OutName) (b : Bool) (hr : run o cmd pkg fl = .done w l b) : l = w.map (·.1) := by
+  unfold run at hr
+  split at hr
+  · cases hr
+  · split at hr
+    · cases hr
+    · split at hr
+      · cases hr
+      · rw [finish_eq] at hr
+        cases hr
+        rfl
+
+/-- written files = specified files, whenever the specification asks for files -/
+theorem C16_written_eq (o : Oracle) (cmd : Cmd) (pkg : Pkg) (fl : Flags) (h : region cmd pkg fl = .WF)
+    (fs : List (OutName × List String)) (hs : spec cmd pkg fl = some (.files fs)) :
+    ∃ b, run o cmd pkg fl = .done fs (fs.map (·.1)) b := by
+  obtain ⟨s, hs', hmeets⟩ := C16_model_meets_spec o cmd pkg fl h
+  rw [hs] at hs'
+  cases hs'
+  cases hr : run o cmd pkg fl with
+  | stop st => simp [hr, meets] at hmeets
+  | done w l b =>
+    simp only [hr, meets, Bool.and_eq_true, beq_iff_eq] at hmeets
+    exact ⟨b, by rw [hmeets.1, hmeets.2]⟩
+
+/-- the set of types for which output is generated: the named types / the eligible types declared in the
+    file / the eligible types of the package -/
+theorem C16_selection (o : Oracle) (cmd : Cmd) (pkg : Pkg) (fl : Flags) (h : region cmd pkg fl = .WF)
+    (fs : List (OutName × List String)) (hs : spec cmd pkg fl = some (.files fs)) :
+    (∃ b, run o cmd pkg fl = .done fs (fs.map (·.1)) b) ∧
+    fs.flatMap (·.2) =
+      match mode fl with
+      | some (.named ns _) => ns
+      | some (.file f _) => eligibleIn cmd pkg (some f)
+      | some (.star _) => eligibleIn cmd pkg none
+      | none => [] := by
+  refine ⟨C16_written_eq o cmd pkg fl h fs hs, ?_⟩
+  have hsingle : ∀ (e : List String) (k : String → OutName), (e.map (fun n => (k n, [n]))).flatMap (·.2) = e := by
+    intro e k; induction e with
+    | nil => rfl
+    | cons a r ih => simp [List.flatMap_cons, ih]
+  unfold spec at hs
+  cases hm : mode fl with
+  | none => simp [hm] at hs
+  | some md =>
+    cases md with
+    | named ns file =>
+      simp only [hm] at hs ⊢
+      split at hs
+      · simp only [Option.some.injEq, SpecOut.files.injEq] at hs
+        rw [← hs]; exact hsingle ns _
+      · cases hs
+    | file f sep =>
+      simp only [hm] at hs ⊢
+      split at hs
+      · simp only [Option.some.injEq, SpecOut.files.injEq] at hs
+        rw [← hs]; exact hsingle _ _
+      · split at hs
+        · rename_i he
+          simp only [Option.some.injEq, SpecOut.files.injEq] at hs
+          rw [← hs]; simpa [List.isEmpty_iff] using he.symm
+        · simp only [Option.some.injEq, SpecOut.files.injEq] at hs
+          rw [← hs]; simp
+    | star sep =>
+      simp only [hm] at hs ⊢
+      split at hs
+      · simp only [Option.some.injEq, SpecOut.files.injEq] at hs
+        rw [← hs]; exact hsingle _ _
+      · split at hs
+        · rename_i he
+          simp only [Option.some.injEq, SpecOut.files.injEq] at hs
+          rw [← hs]; simpa [List.isEmpty_iff] using he.symm
+        · simp only [Option.some.injEq, SpecOut.files.injEq] at hs
+          rw [← hs]; simp
+
+/-- ineligible declarations are skipped by `-file` and `-type=*` -/
+theorem C16_ineligible_skipped (o : Oracle) (cmd : Cmd) (pkg : Pkg) (fl : Flags) (h : region cmd pkg fl = .WF)
+    (hmode : ∀ ns file, mode fl ≠ some (.named ns file))
+    (w : List (OutName × List String)) (l : List OutName) (b : Bool) (hr : run o cmd pkg fl = .done w l b)
+    (f : String) (t : TSpec) (ht : (f, t) ∈ declared pkg) (hne : eligible cmd pkg t = false) :
+    t.name ∉ w.flatMap (·.2) := by
+  obtain ⟨s, hs, hmeets⟩ := C16_model_meets_spec o cmd pkg fl h
+  have hv : validPkg pkg = true := by
+    unfold region at h
+    by_cases hv : validPkg pkg = true
+    · exact hv
+    · simp [hv] at h
+  have v := validFacts hv
+  have hel : ∀ inFile, t.name ∉ eligibleIn cmd pkg inFile := by
+    intro inFile hmem
+    simp only [eligibleIn, List.mem_map, List.mem_filter, Bool.and_eq_true] at hmem
+    obtain ⟨ft, ⟨hft, _, hel⟩, hn⟩ := hmem
+    have := inj_of_nodup_map (fun ft : String × TSpec => ft.2.name) _ v.names _ hft _ ht hn
+    rw [this] at hel
+    simp [hne] at hel
+  cases s with
+  | rejected bad =>
+    unfold spec at hs
+    cases hm : mode fl with
+    | none => simp [hm] at hs
+    | some md =>
+      cases md with
+      | named ns file => exact absurd hm (hmode ns file)
+      | file f sep => simp only [hm] at hs; (repeat' split at hs) <;> cases hs
+      | star sep => simp only [hm] at hs; (repeat' split at hs) <;> cases hs
+  | files fs =>
+    have hsel := (C16_selection o cmd pkg fl h fs hs).2
+    simp only [hr, meets, Bool.and_eq_true, beq_iff_eq] at hmeets
+    rw [hmeets.1, hsel]
+    cases hm : mode fl with
+    | none => simp
+    | some md =>
+      cases md with
+      | named ns file => exact absurd hm (hmode ns file)
+      | file f sep => exact hel _
+      | star sep => exact hel _
+
+/-- naming a type that is missing or of the wrong kind yields a diagnostic and never an output file for it
+    (on the well-formed region: `new`, `map`, and the `rest`/`enum` runs outside F_rest_badname / F_enum_silent) -/
+theorem C16_missing_diag (o : Oracle) (cmd : Cmd) (pkg : Pkg) (fl : Flags) (h : region cmd pkg fl = .WF)
+    (ns : List String) (file : Option String) (hm : mode fl = some (.named ns file))
+    (n : String) (hn : n ∈ ns) (hbad : good cmd pkg file n = false) :
+    run o cmd pkg fl = .stop .fatal ∨
+      ∃ w l, run o cmd pkg fl = .done w l true ∧ n ∉ w.flatMap (·.2) := by
+  obtain ⟨s, hs, hmeets⟩ := C16_model_meets_spec o cmd pkg fl h
+  have hmemb : n ∈ ns.filter (fun n => !good cmd pkg file n) := by simp [List.mem_filter, hn, hbad]
+  have hs' : s = .rejected (ns.filter (fun n => !good cmd pkg file n)) := by
+    unfold spec at hs
+    simp only [hm] at hs
+    split at hs
+    · rename_i he
+      simp only [List.isEmpty_iff] at he
+      rw [he] at hmemb; cases hmemb
+    · cases hs; rfl
+  subst hs'
+  cases hr : run o cmd pkg fl with
+  | stop st =>
+    simp only [hr, meets, beq_iff_eq] at hmeets
+    exact Or.inl (by rw [hmeets])
+  | done w l b =>
+    right
+    simp only [hr, meets, Bool.and_eq_true, List.isEmpty_iff] at hmeets
+    refine ⟨w, l, by rw [hmeets.1], ?_⟩
+    intro hin
+    have : n ∈ holdsBad (ns.filter (fun n => !good cmd pkg file n)) w := by
+      simp only [holdsBad, List.mem_filter, List.any_eq_true, List.contains_eq_mem, decide_eq_true_eq]
+      simp only [List.mem_flatMap] at hin
+      exact ⟨by simpa [List.mem_filter] using hmemb, hin⟩
+    rw [hmeets.2] at this
+    cases this
+
+/-- output names: a per-type file is `src.shoot<cmd>.<type>.go` with src.go the declaring file of its single type;
+    an all-in-one file is `src.shoot<cmd>.go` with src.go a file of the package (the `-file` argument or the file
+    carrying the go:generate line) -/
+theorem C16_names (o : Oracle) (cmd : Cmd) (pkg : Pkg) (fl : Flags) (h : region cmd pkg fl = .WF)
+    (w : List (OutName × List String)) (l : List OutName) (b : Bool) (hr : run o cmd pkg fl = .done w l b)
+    (fs : List (OutName × List String)) (hs : spec cmd pkg fl = some (.files fs)) :
+    w = fs ∧ ∀ kv ∈ w,
+      (∃ t f, kv.2 = [t] ∧ fileOf pkg t = some f ∧ kv.1 = ⟨stem f, some (comp t)⟩) ∨
+      (∃ g ∈ pkg.map File.name, kv.1 = ⟨stem g, none⟩) := by
+  obtain ⟨b', hr'⟩ := C16_written_eq o cmd pkg fl h fs hs
+  rw [hr] at hr'
+  cases hr'
+  refine ⟨rfl, ?_⟩
+  have hv : validPkg pkg = true := by
+    unfold region at h
+    by_cases hv : validPkg pkg = true
+    · exact hv
+    · simp [hv] at h
+  have v := validFacts hv
+  -- an eligible name is declared in the file `fileOf` reports
+  have hdecl : ∀ inFile n, n ∈ eligibleIn cmd pkg inFile → ∃ f, fileOf pkg n = some f ∧ (∀ g, inFile = some g → f = g) := by
+    intro inFile n hmem
+    simp only [eligibleIn, List.mem_map, List.mem_filter, Bool.and_eq_true] at hmem
+    obtain ⟨ft, ⟨hft, hin, _⟩, rfl⟩ := hmem
+    obtain ⟨f, t⟩ := ft
+    refine ⟨f, by simp [fileOf, findDecl_of_mem v hft], ?_⟩
+    intro g hg; subst hg; simpa using hin
+  unfold region at h
+  simp only [hv, Bool.not_true, Bool.false_eq_true, ↓reduceIte] at h
+  unfold spec at hs
+  cases hm : mode fl with
+  | none => simp [hm] at hs
+  | some md =>
+    cases md with
+    | named ns file =>
+      simp only [hm] at hs h
+      split at hs
+      · rename_i he
+        simp only [Option.some.injEq, SpecOut.files.injEq] at hs
+        subst hs
+        intro kv hkv
+        simp only [List.mem_map] at hkv
+        obtain ⟨n, hn, rfl⟩ := hkv
+        left
+        have hg : good cmd pkg file n = true := by
+          simp only [List.isEmpty_iff, List.filter_eq_nil_iff, Bool.not_eq_true', Bool.not_eq_false] at he
+          exact he n hn
+        obtain ⟨ft, hft, hname⟩ := good_declared hg
+        obtain ⟨f, t⟩ := ft
+        have hfo : fileOf pkg n = some f := by rw [← hname]; simp [fileOf, findDecl_of_mem v hft]
+        exact ⟨n, f, rfl, hfo, by simp [perType, hfo]⟩
+      · cases hs
+    | file f sep =>
+      simp only [hm] at hs h
+      have hin : (pkg.map File.name).contains f = true := by
+        cases hc : (pkg.map File.name).contains f with
+        | true => rfl
+        | false => rw [hc] at h; simp at h
+      split at hs
+      · simp only [Option.some.injEq, SpecOut.files.injEq] at hs
+        subst hs
+        intro kv hkv
+        simp only [List.mem_map] at hkv
+        obtain ⟨n, hn, rfl⟩ := hkv
+        left
+        obtain ⟨f', hfo, hf'⟩ := hdecl (some f) n hn
+        exact ⟨n, f', rfl, hfo, by rw [hf' f rfl]⟩
+      · split at hs
+        · simp only [Option.some.injEq, SpecOut.files.injEq] at hs
+          subst hs; intro kv hkv; cases hkv
+        · simp only [Option.some.injEq, SpecOut.files.injEq] at hs
+          subst hs
+          intro kv hkv
+          simp only [List.mem_singleton] at hkv
+          subst hkv
+          right
+          exact ⟨f, by simpa using hin, rfl⟩
+    | star sep =>
+      simp only [hm] at hs h
+      split at hs
+      · simp only [Option.some.injEq, SpecOut.files.injEq] at hs
+        subst hs
+        intro kv hkv
+        simp only [List.mem_map] at hkv
+        obtain ⟨n, hn, rfl⟩ := hkv
+        left
+        obtain ⟨f', hfo, _⟩ := hdecl none n hn
+        exact ⟨n, f', rfl, hfo, by simp [perType, hfo]⟩
+      · split at hs
+        · simp only [Option.some.injEq, SpecOut.files.injEq] at hs
+          subst hs; intro kv hkv; cases hkv
+        · rename_i hsep he
+          simp only [Option.some.injEq, SpecOut.files.injEq] at hs
+          subst hs
+          intro kv hkv
+          simp only [List.mem_singleton] at hkv
+          subst hkv
+          right
+          simp only [he, Bool.false_eq_true, ↓reduceIte] at h
+          cases hg : (pkg.find? (fun f => f.comments.any (isDirective fl.cmdline))) with
+          | none => simp only [hg, Option.map_none] at h; cases sep <;> simp at h
+          | some gf => exact ⟨gf.name, List.mem_map_of_mem (List.mem_of_find?_eq_some hg), by simp⟩
+
+/-! ### non-vacuity: concrete inputs in the well-formed region -/
+
+def exPkg : Pkg :=
+  [ { name := "a.go", comments := ["//go:generate go tool shoot new -type=*"],
+      decls := [.types [{ name := "Alpha", shape := .struct }, { name := "_Hid", shape := .struct }],
+                .func ["T"] [], .types [{ name := "Name", shape := .other, under := some .nonInt }]] },
+    { name := "b.go", comments := [],
+      decls := [.types [{ name := "beta", shape := .struct }], .other,
+                .types [{ name := "Color", shape := .other, under := some .int }],
+                .consts [{ names := ["Red"], typ := some "Color" }, { names := ["Green", "_"], hasValues := false }]] } ]
+
+example : region .new exPkg { types := ["*"], cmdline := "shoot new -type=*" } = .WF := by decide
+example : region .new exPkg { types := ["Alpha", "beta"], cmdline := "shoot new -type=Alpha,beta" } = .WF := by decide
+example : region .new exPkg { types := ["Alpha", "Missing"], cmdline := "shoot new -type=Alpha,Missing" } = .WF := by decide
+example : region .enum exPkg { file := "b.go", sep := true, cmdline := "shoot enum -file=b.go -sep" } = .WF := by decide
+example : spec .new exPkg { types := ["*"], cmdline := "shoot new -type=*" }
+    = some (.files [(⟨"a", none⟩, ["Alpha", "beta"])]) := by decide
+example : spec .enum exPkg { file := "b.go", sep := true, cmdline := "shoot enum -file=b.go -sep" }
+    = some (.files [(⟨"b", some "color"⟩, ["Color"])]) := by decide
+
+/-! ### witnesses of the finding regions: the model (= the code) does not meet the specification there -/
+
+def wGetPkg : Pkg := [ { name := "b.go", comments := [], decls := [.types [{ name := "Order", shape := .struct }]] },
+                       { name := "c.go", comments := [], decls := [.func ["Order"] []] } ]
+def wGetFl : Flags := { types := ["Order"], cmdline := "shoot new -type=Order" }
+
+/-- a type parameter called `Order` in c.go: with the map order that yields c.go first, the output is named after c.go -/
+theorem C16_F_getgofile_witness :
+    region .new wGetPkg wGetFl = .F_getgofile ∧
+    spec .new wGetPkg wGetFl = some (.files [(⟨"b", some "order"⟩, ["Order"])]) ∧
+    run (fun _ => 1) .new wGetPkg wGetFl = .done [(⟨"c", some "order"⟩, ["Order"])] [⟨"c", some "order"⟩] false ∧
+    meets (run (fun _ => 1) .new wGetPkg wGetFl) (.files [(⟨"b", some "order"⟩, ["Order"])]) = false ∧
+    meets (run (fun _ => 0) .new wGetPkg wGetFl) (.files [(⟨"b", some "order"⟩, ["Order"])]) = true := by decide
+
+def wNolinePkg : Pkg := [ { name := "a.go", comments := [], decls := [.types [{ name := "Kind", shape := .struct }]] } ]
+def wNolineFl : Flags := { types := ["*"], cmdline := "shoot new -type=*" }
+
+theorem C16_F_star_noline_witness :
+    region .new wNolinePkg wNolineFl = .F_star_noline ∧
+    spec .new wNolinePkg wNolineFl = some (.files [(⟨anySrc, none⟩, ["Kind"])]) ∧
+    run (fun _ => 0) .new wNolinePkg wNolineFl = .done [(⟨"", none⟩, ["Kind"])] [⟨"", none⟩] false ∧
+    meets (run (fun _ => 0) .new wNolinePkg wNolineFl) (.files [(⟨anySrc, none⟩, ["Kind"])]) = false ∧
+    "" ∉ wNolinePkg.map (fun f => stem f.name) := by decide
+
+def wSepPkg : Pkg := [ { name := "a.go", comments := ["//go:generate shoot new -type=* -sep"],
+                         decls := [.types [{ name := "Item", shape := .struct }]] },
+                       { name := "b.go", comments := [], decls := [.types [{ name := "Color", shape := .struct }]] } ]
+def wSepFl : Flags := { types := ["*"], sep := true, cmdline := "shoot new -type=* -sep" }
+
+theorem C16_F_star_sep_witness :
+    region .new wSepPkg wSepFl = .F_star_sep ∧
+    spec .new wSepPkg wSepFl = some (.files [(⟨"a", some "item"⟩, ["Item"]), (⟨"b", some "color"⟩, ["Color"])]) ∧
+    run (fun _ => 0) .new wSepPkg wSepFl
+      = .done [(⟨"a", some "item"⟩, ["Item"]), (⟨"a", some "color"⟩, ["Color"])] [⟨"a", some "item"⟩, ⟨"a", some "color"⟩] false := by
+  decide
+
+def wRestPkg : Pkg := [ { name := "a.go", comments := [], decls := [.types [{ name := "Zone", shape := .iface [.restClient] }]] } ]
+def wRestFl : Flags := { types := ["Missing"], cmdline := "shoot rest -type=Missing" }
+
+theorem C16_F_rest_badname_witness :
+    region .rest wRestPkg wRestFl = .F_rest_badname ∧
+    spec .rest wRestPkg wRestFl = some (.rejected ["Missing"]) ∧
+    run (fun _ => 0) .rest wRestPkg wRestFl = .done [(⟨"", some "missing"⟩, ["Missing"])] [⟨"", some "missing"⟩] false ∧
+    meets (run (fun _ => 0) .rest wRestPkg wRestFl) (.rejected ["Missing"]) = false := by decide
+
+def wEnumPkg : Pkg :=
+  [ { name := "d.go", comments := [],
+      decls := [.types [{ name := "Level", shape := .other, under := some .int }],
+                .consts [{ names := ["LevelOne"], typ := some "Level" }]] } ]
+def wEnumFl : Flags := { types := ["Level", "Missing"], cmdline := "shoot enum -type=Level,Missing" }
+
+theorem C16_F_enum_silent_witness :
+    region .enum wEnumPkg wEnumFl = .F_enum_silent ∧
+    spec .enum wEnumPkg wEnumFl = some (.rejected ["Missing"]) ∧
+    run (fun _ => 0) .enum wEnumPkg wEnumFl = .done [(⟨"d", some "level"⟩, ["Level"])] [⟨"d", some "level"⟩] false ∧
+    meets (run (fun _ => 0) .enum wEnumPkg wEnumFl) (.rejected ["Missing"]) = false := by decide
+
 end ShootVerif.Cli
